@@ -645,7 +645,12 @@ func parseValue(p *cfgPrimitive, opts *options, str string, parseCfg parse.Confi
 		return newString(p.ctx, p.meta(), v), nil
 	}
 
-	sub, err := normalize(opts, ifc)
+	// ifc is the RESULT of an expansion (or the answer of a resolver): its
+	// strings are data. They must not be read as expressions (and parsed) a
+	// second time, whatever they contain.
+	dataOpts := *opts
+	dataOpts.varexp = false
+	sub, err := normalize(&dataOpts, ifc)
 	if err != nil {
 		return nil, err
 	}
